@@ -204,7 +204,10 @@ pub fn run_calls_kill(sim: &Sim, _idx: u64) {
                 if o.items.len() > want.len() || o.items.iter().zip(want.iter()).any(|(a, b)| a != b) {
                     sim.violation("C02/items-not-a-prefix-under-connection-death", format!("{who}: caller got {:?}, handler produced {:?}", o.items.iter().map(|m| m.len()).collect::<Vec<_>>(), want.iter().map(|m| m.len()).collect::<Vec<_>>()));
                 }
-                if o.clean_end && (p.script.end.is_some() || o.items.len() != want.len()) && o.call_err.is_none() {
+                // (a caller that asked for trailers() early legitimately holds fewer items; a clean
+                // outcome still needs the handler's OK)
+                let all_items = o.items.len() == want.len() || (o.early_trailers.is_some() && p.early_trailers_after == Some(o.items.len()));
+                if o.clean_end && (p.script.end.is_some() || !all_items) && o.call_err.is_none() {
                     sim.violation("C02/clean-end-with-missing-data-under-connection-death", format!("{who}: clean end after {} of {} items; handler end={:?}", o.items.len(), want.len(), p.script.end.as_ref().map(|e| e.code)));
                 }
             }
